@@ -244,6 +244,22 @@ func c03Random(c *caseCtx) {
 			}
 		}
 	}
+	if c.idx%16 == 5 {
+		// large magnitudes (1e6 .. 1e13 times the usual values): the 1e-8 rounding must not go through a narrower type
+		f := math.Pow(10, float64(6+c.rng.Intn(8)))
+		for _, a := range g.M["knownAlternatives"].([]interface{}) {
+			cv := a.(M)["criteria"].(M)
+			for k, v := range cv {
+				cv[k] = v.(float64) * f
+			}
+		}
+		for _, cr := range g.M["criteria"].([]interface{}) {
+			if vr, ok := cr.(M)["valuesRange"].(M); ok {
+				vr["min"], vr["max"] = numOr(vr, "min", 0)*f, numOr(vr, "max", 0)*f
+			}
+		}
+		c.count("large_magnitude_requests", 1)
+	}
 	d := decide(g.body(), true)
 	c03Check(c, g, d)
 }
